@@ -238,7 +238,7 @@ def r1(idx, rep):
     # complete_run hands the registrar this run's directory and every result
     fc = idx.method("ResultsManager", "complete_run")
     ctor = [c for c in walk_no_nested(fc.node) if isinstance(c, ast.Call) and call_name(c) == "ResultsRegistrar"]
-    kw = K.kw_text(fc, ctor[0]) if len(ctor) == 1 else {}
+    kw = K.kw_values(idx, fc, ctor[0]) if len(ctor) == 1 else {}
     rep.check(kw.get("run_dir") == "run_dir" and kw.get("results") == "results" and kw.get("pathsname") == "pathsname", "R1", f"{fc.file}::ResultsManager.complete_run registrar wiring", f"{kw}", K.where(fc, fc.node))
 
 
